@@ -114,6 +114,7 @@ type vcConn struct {
 	greeted bool
 	sclosed bool // the server closed its side
 	cclosed bool // the client closed the connection
+	prevN   int // len(cc.streams) at the previous quiescent point
 	goaway  bool
 	gaLast  uint32
 	gaCode  uint32
@@ -375,6 +376,16 @@ func (c *vcCase) settle() {
 			res = "-" // simultaneous fail-over makes the order of reservations a scheduling matter
 		}
 		c.obsf("st:%d:%d:%s:%d:%d:%d", k.idx, st.Streams, res, st.PendingResets, st.Max, st.Next)
+		// progress: once a stream has left (forgetStreamID broadcasts), no request may still
+		// wait in awaitOpenSlotForStreamLocked while streams + pending resets are below the limit
+		if st.Streams < k.prevN && st.PendingRequests > 0 && !st.Closed && !st.GoAway && !st.DoNotReuse &&
+			st.Streams+st.PendingResets < int(st.Max) {
+			c.o.Fail("", fmt.Sprintf("conn %d: %d request(s) still wait for a stream slot although only %d streams + %d pending resets are counted against limit %d (%d reservations queued behind)", k.idx, st.PendingRequests, st.Streams, st.PendingResets, st.Max, st.Reserved))
+		}
+		if st.PendingRequests > 0 {
+			c.o.Stat("quiesce:waiter")
+		}
+		k.prevN = st.Streams
 		// the wire-level view can never be ahead of the client's own bookkeeping
 		if !k.cclosed && !k.sclosed && k.openCount() > st.Streams {
 			c.o.Fail("", fmt.Sprintf("conn %d: %d streams are open on the wire but the client tracks only %d", k.idx, k.openCount(), st.Streams))
